@@ -140,6 +140,15 @@ def run(ctx: Ctx) -> int:
 	step = 6 if quick else 1
 	programs += [(f'stmt:{i}', c['text']) for i, c in enumerate(stmts[::step])]
 	programs += [(f'expr-batch:{i}', srcmodel.program_of(cases[i:i + 60], i)) for i in range(0, len(cases), 60)]
+	# the layout axis: the programs of spec/TokLayout.tla under every layout reachable by two rewrites (comment lines,
+	# trailing comments and blanks, blanks on blank lines, CRLF, missing final line break, indent units) - comments
+	# and line ends are tokens of the tree too
+	from harness import tlc
+	lay = tlc.run('TokLayout', 'TokLayout_emit_2_2.cfg', workers=1, timeout=1200, heap='8g')
+	layouts = sorted({json.loads(line)['text'] for line in lay.lines('CASE ')})
+	if len(layouts) < 5000:
+		raise Machinery(f'TokLayout emitted {len(layouts)} texts only')
+	programs += [(f'layout:{i}', t) for i, t in enumerate(layouts[::(12 if quick else 1)])]
 	nproc = 16
 	from harness import real_modules
 	modules = real_modules.QUICK if quick else real_modules.TRANSPILE_OK
